@@ -18,8 +18,12 @@ fn repr_round_sum<const B: Word>(
         // machine ranges (overflow of usize/isize is outside this contract)
         self.precision < usize::MAX,
         ndigits(B as int, significand.v()) <= isize::MAX, low.1 <= isize::MAX,
-        exponent + ndigits(B as int, significand.v()) <= isize::MAX,
+        exponent + ndigits(B as int, significand.v()) + 1 <= isize::MAX,
         exponent - low.1 >= isize::MIN,
+        // resource limit: exponent overflow is a documented panic (C16), not modelled: digit positions of the splits /
+        // shifts (bit position within usize); the "+ 1" above is the room `Repr::new` needs for the rounded significand
+        // (crude bound: the exact need is `exponent + digits <= isize::MAX`; the callers have 2^56 ranges)
+        pos_room(ndigits(B as int, significand.v()) as int), pos_room(low.1 as int),
     ensures
         sum_post(R::md(), B as int, self.precision, is_sub, significand.v(), exponent as int, low.0.v(), low.1 as int, ret),
 @*/
@@ -86,6 +90,10 @@ fn repr_round_sum<const B: Word>(
             assert(low.1 == j);
             assert(exponent - low.1 == E0 - k0);
             assert(unit_split(N, ipow(B as int, low.1 as nat), significand.v(), low.0.v()));
+            // room for the exponent of the result (Repr::new below)
+            lemma_sum_top(B as int, S0, L0, k0, low.1 as nat, significand.v(), low.0.v(), 0);
+            lemma_sum_top(B as int, S0, L0, k0, low.1 as nat, significand.v(), low.0.v(), 1);
+            lemma_sum_top(B as int, S0, L0, k0, low.1 as nat, significand.v(), low.0.v(), -1);
         } @*/
 
         // perform rounding
